@@ -1,7 +1,8 @@
 (* C11 - decoration changes only the look: same text, right codes, none when plain.
    good c: the character is neither ESC nor a backslash (pastel renders backslash escapes inside a styled region
    differently in its two modes; such messages are outside the claim). *)
-From Clikit Require Import Base.Prelude Base.Res Model.Conv Model.Markup Model.OutputM Proofs.MarkupLemmas Proofs.OutputLemmas.
+From Clikit Require Import Base.Prelude Base.Res Model.Conv Model.Markup Model.OutputM Model.Trace Proofs.MarkupLemmas Proofs.OutputLemmas
+  Proofs.LiteralLemmas.
 
 (* An ANSI and a plain formatter built alike carry the same style table. *)
 Theorem built_alike : forall b set fa fp,
@@ -120,3 +121,24 @@ Print Assumptions scopes_are_lexical.
 (* premises are satisfiable *)
 Example good_message : Forall good [60; 98; 62; 104; 105; 60; 47; 98; 62]%N /\ tag_name [98%N] /\ py_lower [98%N] = [98%N].
 Proof. repeat split; repeat constructor; discriminate. Qed.
+
+(* Decoration changes only the look - also for messages WITH backslashes (ansi_plain_strip above excludes them): whenever
+   the message does not end in a backslash, no text before a tag ends in one (so no tag is escaped), and nothing holds
+   ESC, the decorated and the undecorated rendering fail alike or leave the same style stack and the same text under
+   the escape codes.  (What is excluded is exactly pastel's own quirk: an ESCAPED whole tag inside an active style is
+   shown with its backslash on a decorated output only - see DESIGN.md C20, fix f100be7.) *)
+Theorem ansi_plain_strip_backslashes : forall sty sk m,
+  ends_with_bsl m = false -> Forall seg_fine (fst (lex m)) -> Forall good (snd (lex m)) ->
+  match colorize sty true sk m, colorize sty false sk m with
+  | Ok (s1, o1), Ok (s2, o2) => s1 = s2 /\ strip_sgr o1 = o2
+  | Err e1, Err e2 => e1 = e2
+  | _, _ => False
+  end.
+Proof. exact colorize_lockstep_gen. Qed.
+Print Assumptions ansi_plain_strip_backslashes.
+(* an instance with backslashes: "a\\b <b>c\\d</b> e\\<" *)
+Example backslashes_in_lockstep :
+  let m := [97;92;98;32;60;98;62;99;92;100;60;47;98;62;32;101;92;60]%N in
+  ends_with_bsl m = false /\ strip_sgr (match colorize Examples.demo_sty true [] m with Ok (_, o) => o | Err _ => [] end)
+                             = match colorize Examples.demo_sty false [] m with Ok (_, o) => o | Err _ => [1%N] end.
+Proof. vm_compute. split; reflexivity. Qed.
